@@ -1092,15 +1092,31 @@ impl Writer {
         // NackFrag is negative acknowledgement only, i.e. requesting missing fragments.
 
         let reader_guid = GUID::new(reader_guid_prefix, nackfrag.reader_id);
-        if let Some(reader_proxy) = self.lookup_reader_proxy_mut(reader_guid) {
-          reader_proxy.mark_frags_requested(nackfrag.writer_sn, &nackfrag.fragment_number_state);
+        // We can only resend fragments of a sample we still have.
+        let frag_count = self
+          .history_buffer
+          .get_by_sn(nackfrag.writer_sn)
+          .map(|cc| self.num_frags_and_frag_size(cc.data_value.payload_size()).0);
+        if let Some(frag_count) = frag_count {
+          if let Some(reader_proxy) = self.lookup_reader_proxy_mut(reader_guid) {
+            reader_proxy.mark_frags_requested(
+              nackfrag.writer_sn,
+              &nackfrag.fragment_number_state,
+              frag_count,
+            );
+            self.timed_event_timer.set_timeout(
+              self.nackfrag_response_delay,
+              TimedEvent::SendRepairFrags {
+                to_reader: reader_guid,
+              },
+            );
+          }
+        } else {
+          debug!(
+            "NackFrag for SN={:?} which is not in history. topic={:?}",
+            nackfrag.writer_sn, self.my_topic_name
+          );
         }
-        self.timed_event_timer.set_timeout(
-          self.nackfrag_response_delay,
-          TimedEvent::SendRepairFrags {
-            to_reader: reader_guid,
-          },
-        );
       }
     }
   }
